@@ -10,18 +10,23 @@ from ..machine import norm, RAM, DISK
 
 class C01(E1):
     ID = "C01"
+    EXPECTED_PROBES = ('second_pass_runs', 'mixed_deps_checkpoint', 'multistage_both_storages_runs', 'hrevolve_used_disk_runs', 'twolevel_partial_last_block_runs')
     RULE = ("one schedule per run (class variant, parameters, costs, true end "
-            "N, passes, finalize style drawn from the run seed; all "
-            "configurations with N <= 8 walked first), executed action by "
-            "action on the reference machine; non-trivial = the stream "
-            "restarted from at least one checkpoint (Copy/Move executed); "
-            "distinct = distinct event-log fingerprints")
+            "N, passes, finalize style, driving style [next() calls or the "
+            "documented for-loop-and-break per pass] and Mixed planner path "
+            "drawn from the run seed; all configurations with N <= 8 walked "
+            "first; 4-8 % of runs from a large-N stratum, N up to 420/800 "
+            "with cheap unit counts), executed action by action on the "
+            "reference machine; non-trivial = the stream restarted from at "
+            "least one checkpoint (Copy/Move executed); distinct = distinct "
+            "event-log fingerprints")
     ASSUMPTIONS = [
         "the reference machine (sim/machine.py) is the meaning of 'carried "
         "out literally by a solver'",
         "a restart checkpoint written by Forward(n0,n1) serves steps "
         "[n0,min(n1,N)); 'covers' = its range reaches the adjoint position",
-        "sizes bounded: N <= 64 quick / 300 thorough (Revolve family 48/128)",
+        "sizes bounded: N <= 64 quick / 300 thorough (Revolve family 48/128)"
+        " plus the large-N stratum",
     ]
 
     def nontrivial(self, w):
@@ -31,6 +36,7 @@ class C01(E1):
 
 class C02(E1):
     ID = "C02"
+    EXPECTED_PROBES = ('second_pass_runs',)
     OVERRUN = 3
     RULE = ("as C01 plus next() three more times after the executor's last "
             "pass; phase grammar, contiguous tiling of [0,N) by forward-phase "
@@ -74,6 +80,7 @@ class C02(E1):
 
 class C03(E1):
     ID = "C03"
+    EXPECTED_PROBES = ('hrevolve_disk_reread', 'hrevolve_used_disk')
     RULE = ("as C01 with unit counts concentrated where budgets bind; after "
             "every event the number of checkpoints held in RAM / on DISK is "
             "compared with the per-class budget table (DESIGN 6 C03); "
@@ -101,6 +108,7 @@ class C03(E1):
 
 class C04(E1):
     ID = "C04"
+    EXPECTED_PROBES = ('second_pass_runs', 'hrevolve_used_disk_runs')
     RULE = ("as C01; at every EndReverse the set of stored checkpoints is "
             "compared with the empty set (single-adjoint classes) or with the "
             "set at EndForward (repeatable classes); non-trivial = the stream "
@@ -143,6 +151,7 @@ class C04(E1):
 
 class C08(E1):
     ID = "C08"
+    EXPECTED_PROBES = ('second_pass_runs', 'obs_before_first_next')
     OBS_RATE = 0.25
     OBS_KINDS = ("n", "r", "max_n") * 3 + ("is_exhausted", "is_running",
                                           "uses:RAM", "uses:DISK")
@@ -181,6 +190,7 @@ class C08(E1):
 
 class C12(E1):
     ID = "C12"
+    EXPECTED_PROBES = ('mixed_deps_checkpoint', 'hrevolve_used_disk_runs')
     RULE = ("as C01; after every event WORK is inspected: adjoint dependencies"
             " of at most one step (SingleMemory exempt), loads only into an "
             "empty WORK, dependencies written/loaded only for step adj-1, no "
@@ -292,6 +302,7 @@ def _perturb(a, lib):
 
 class C18(E1):
     ID = "C18"
+    EXPECTED_PROBES = ('c18_actions_examined', 'c18_constructed_actions')
     WORLD_KW = {"keep_raw": True}
     LATE_FIN = 0.3
     SIZES = {"quick": (32, 32), "thorough": (128, 96)}
